@@ -45,8 +45,8 @@ def run(run, args):
     lens = Counter(min(len(h["h"]), 50) // 5 * 5 for h in hists)
     calls = sum(len(h["h"]) for h in hists)
     run.cov.update({"evaluations": calls, "histories": len(hists), "distinct_nontrivial": sum(1 for h in hists if len(set(h["h"])) > 1),
-                    "rule": "a pool of 11 requests sharing elements at different sizes and orders (C6H12O6/5 peaks, C600H1200O600/40, C2/3, H2O/default, "
-                            "C60N10S2/12, O30C/25, K20C300/99%%, C34H53N7O15/8, C5H11NO2Se/3, C10H20N2O4Se2/12, Sn2C4/2); every history of length <= %d over the pool on one generator, random "
+                    "rule": "a pool of 14 requests sharing elements at different sizes and orders (C6H12O6/5 peaks, C600H1200O600/40, C2/3, H2O/default, "
+                            "C60N10S2/12, O30C/25, K20C300/99%%, C34H53N7O15/8, C5H11NO2Se/3, C10H20N2O4Se2/12, Sn2C4/2, the first request again with a sodium carrier, Ar3/4 and CaCO3/6 whose element numbers collide); every history of length <= %d over the pool on one generator, random "
                             "histories of length 5..50, and 16 threads each interleaving generator and stateless calls; after every call the generator's peaks "
                             "are compared with the stateless function's; non-trivial = a history calling at least two different requests" % n,
                     "kinds": dict(kinds), "history_length_histogram": {str(k): v for k, v in sorted(lens.items())},
@@ -63,7 +63,7 @@ def run(run, args):
     broken = standard_proof_obligations(run, "C08", THEOREMS) if THEOREMS else []
     if res[1]:
         h = by_id[res[1][0]]
-        violation(run, {"failing_input": {"history_of_pool_indices": h["h"], "kind": h["kind"], "pool": [{k: r[k] for k in ("ents", "req", "charge")} for r in pool],
+        violation(run, {"failing_input": {"history_of_pool_indices": h["h"], "kind": h["kind"], "pool": [{k: r[k] for k in ("ents", "req", "charge", "carrier")} for r in pool],
                                           "generator_outputs": h["outs"], "stateless_outputs": poolrec["stateless"]},
                         "what": "after this call history the generator returns peaks that differ from the stateless function's", "all_failing": res[1][:40]})
     if errors:
